@@ -20,6 +20,7 @@ from __future__ import annotations
 
 import itertools
 import json
+import os
 import math
 
 import numpy as np
@@ -438,27 +439,36 @@ def accuracy_bounded(run):
 
 
 def check(run):
-    N.check_binomial(run)
-    N.check_kernel_prefix(run)
-    out = N.check_kernel_suffix(run)
+    only = getattr(run, "only", None)      # --only gray | safety | laplace | permanent | bounded : a part of the check (debugging / self-test)
+    want = lambda part: only is None or only == part
+    C04_gray.ON_FAILED[0] = lambda vc, r: _on_failed_gray(run, vc, r)
+    if want("permanent"):
+        N.check_binomial(run)
+        N.check_kernel_prefix(run)
+    out = N.check_kernel_suffix(run) if want("permanent") else None
     bc_max, bc_type = None, None
     if out is not None:
         res, bc_max = out
         N.report(run, res, on_failed=_on_failed_vc)
         bc_type = "int" if bc_max == 2147483647 else "int64_t"
-    N.check_vector_sum(run)
-    lap = N.check_laplace(run)
-    if lap is not None:
-        N.report(run, lap[0], on_failed=_on_failed_vc)
-    C04_safety.check(run)
-    C04_ghost.check(run)
-    C04_gray.ON_FAILED[0] = lambda vc, r: _on_failed_gray(run, vc, r)
-    C04_gray.check(run)
-    lean.check_lemmas(run, N.SPEC)
+    if want("laplace"):
+        N.check_vector_sum(run)
+        lap = N.check_laplace(run)
+        if lap is not None:
+            N.report(run, lap[0], on_failed=_on_failed_vc)
+    if want("safety"):
+        C04_safety.check(run)
+    if want("gray"):
+        C04_ghost.check(run)
+        C04_gray.check(run)
+    if only is None:
+        lean.check_lemmas(run, N.SPEC)
     if bc_max is not None:
         binom_max = bc_max     # the factors are computed by the instantiation matching the accumulator (checked by the callee contract)
         coverage_obligation(run, bc_max, binom_max, bc_type)
-    gray_counter_bounded(run)
+    if only not in (None, "bounded"):
+        return
+    gray_counter_bounded_in_child(run)
     accuracy_bounded(run)
     run.trust("vf/cppvc.py clang-AST -> Python-AST translator of the integer skeleton; vf/pyvc.py; z3/cvc5; clang 14")
     run.trust("the Glynn/BBFG formula with binomial weights equals the permanent with repetitions (Eq. 8 of arXiv:2309.07027) and the "
@@ -476,15 +486,68 @@ def check(run):
     run.assume("OpenMP: the parallel loop body is verified for an arbitrary job index; its integer state is loop-local")
 
 
+def gray_counter_bounded_in_child(run):
+    """the bounded class check, in a child process (a counter broken by a change of the tree may corrupt memory)"""
+    import subprocess
+    import sys
+
+    code = ("import sys, json; sys.path.insert(0, %r)\n"
+            "from contracts import C04\n"
+            "class R:\n"
+            "    tier = %r\n"
+            "    out = {}\n"
+            "    def failed(self, name, *a, **k): self.out['failed'] = {'name': name, 'what': k.get('what'), 'counterexample': k.get('counterexample')}\n"
+            "    def bounded_result(self, name, **k): self.out['bounded'] = dict(name=name, **k)\n"
+            "r = R(); C04.gray_counter_bounded(r)\n"
+            "print('RESULT=' + json.dumps(r.out, default=str))\n" % (os.path.dirname(os.path.dirname(os.path.abspath(__file__))), run.tier))
+    p = subprocess.run([sys.executable, "-c", code], capture_output=True, text=True, timeout=3600, env=dict(os.environ))
+    line = next((l for l in p.stdout.splitlines() if l.startswith("RESULT=")), None)
+    name = "C04/bounded/n_aryGrayCodeCounter-contract"
+    if line is None:
+        if p.returncode < 0:
+            run.failed(name, "rtc", "exhaustive-enumeration", what=f"the real class crashed the (child) process with signal {-p.returncode} while "
+                       "being exercised: " + (p.stderr.strip().splitlines() or ["?"])[-1][:200], counterexample={"signal": -p.returncode},
+                       replay={"kind": "gray"}, reproduced=True)
+        else:
+            run.broken_ob(name, f"bounded class check did not run: {(p.stderr or p.stdout)[-300:]}")
+        return
+    d = json.loads(line[7:])
+    if "failed" in d:
+        run.failed(d["failed"]["name"], "rtc", "exhaustive-enumeration", what=d["failed"]["what"], counterexample=d["failed"]["counterexample"],
+                   replay={"kind": "gray"}, reproduced=True)
+    if "bounded" in d:
+        b = d["bounded"]
+        run.bounded_result(b.pop("name"), **b)
+
+
+def _gray_replay_child():
+    """exercise the real class in a CHILD process: a broken counter corrupts memory and must not take the checker down"""
+    import subprocess
+    import sys
+
+    code = ("import sys, json; sys.path.insert(0, %r)\n"
+            "from contracts import C04\n"
+            "class R: tier = 'thorough'\n"
+            "f = C04.gray_counter_bounded(R(), report_only=True)\n"
+            "print('REPLAY=' + json.dumps({'cases': [repr(x) for x in f[:5]], 'n': len(f)}))\n" % os.path.dirname(os.path.dirname(os.path.abspath(__file__))))
+    try:
+        p = subprocess.run([sys.executable, "-c", code], capture_output=True, text=True, timeout=1800, env=dict(os.environ))
+    except Exception as e:      # noqa: BLE001
+        return {"reproduced": False, "error": str(e)[:200]}
+    line = next((l for l in p.stdout.splitlines() if l.startswith("REPLAY=")), None)
+    if line:
+        d = json.loads(line[7:])
+        return {"reproduced": d["n"] > 0, "cases": d["cases"]}
+    if p.returncode < 0:
+        return {"reproduced": True, "cases": [f"the class compiled from the tree crashed the replay process (signal {-p.returncode}): "
+                                              + (p.stderr.strip().splitlines() or ["?"])[-1][:160]]}
+    return {"reproduced": False, "error": (p.stderr or p.stdout)[-300:]}
+
+
 def _on_failed_gray(run, vc, r):
     """a refuted obligation of a Gray-counter method: look for a concrete failing (limits, start offset) on the real class"""
-    class _R:
-        tier = "thorough"
-    try:
-        fails = gray_counter_bounded(_R(), report_only=True)
-    except Exception as e:      # the class may not even run
-        return {"replay": {"kind": "gray"}, "reproduced": False, "observed": {"error": str(e)[:300]}}
-    return {"replay": {"kind": "gray"}, "reproduced": bool(fails), "observed": {"cases": [repr(f) for f in fails[:3]]}}
+    rep = _gray_replay_child()
+    return {"replay": {"kind": "gray"}, "reproduced": rep.get("reproduced", False), "observed": rep}
 
 
 def _on_failed_vc(vc, r):
@@ -533,10 +596,7 @@ def replay(path):
     elif r.get("kind") == "threads":
         out = replay_threads()
     elif r.get("kind") == "gray":
-        class _R:
-            tier = "thorough"
-        fails = gray_counter_bounded(_R(), report_only=True)
-        out = {"reproduced": bool(fails), "cases": [repr(f) for f in fails[:5]]}
+        out = _gray_replay_child()
     else:
         print(rep.get("what"))
         return 1
